@@ -34,6 +34,8 @@ func runC14(c *Ctx) {
 	c.Rule("C14.O5", "E5", "message / data-frame / control handlers are invoked only inside closures handed to Execute or SyncCall", 5)
 	c.Rule("C14.O7", "E5", "a WebSocket connection's executor is its parser's or the bound Execute of its nbio.Conn, never the inline executor on a poller-served connection (same rule as C05.O6): the close job must queue behind running message callbacks", 8)
 	wsExecutorStores(c, "C14.O7")
+	c.Rule("C14.O9", "E4", "a connection transferred to the poller is registered (AddTransferredConn) only after its open handler has run, or its callbacks are queued behind it: otherwise a message that arrives right after the handshake is handled while the open handler is still running", 2)
+	c14TransferAfterOpen(c)
 	c.Rule("C14.O8", "E4", "handlers are run inline (SyncCall) only on the isBlockingMod edge, where the connection has its own read goroutine; otherwise they go through the connection's Execute", 4)
 	wsSyncCallScope(c, "C14.O8")
 	c.Rule("C14.O6", "E2", "a frame rejected because the send queue is full is released and an error is returned", 1)
@@ -453,5 +455,36 @@ func wsSyncCallScope(c *Ctx, ob string) {
 	}
 	if n == 0 {
 		c.Unres(ob, "SyncCall / Execute sites", "none found")
+	}
+}
+
+// c14TransferAfterOpen: O9.
+func c14TransferAfterOpen(c *Ctx) {
+	up := c.Fn("C14.O9", "(*websocket.Upgrader).Upgrade")
+	if up == nil {
+		return
+	}
+	fi := c.P.Info(up)
+	var open ssa.Instruction
+	for _, b := range up.Blocks {
+		for _, in := range b.Instrs {
+			if dynCallThrough(in, func(v ssa.Value) bool { return strings.HasSuffix(c.P.LoadedField(ir.Resolve(v)), ".openHandler") }) {
+				open = in
+			}
+		}
+	}
+	if open == nil {
+		c.Unres("C14.O9", "open handler call in Upgrade", "not found")
+		return
+	}
+	n := 0
+	for _, cs := range c.P.CallsNamed(up, "(*nbhttp.Engine).AddTransferredConn") {
+		n++
+		key := fmt.Sprintf("%s: transfer#%d registered after the open handler", c.P.FuncName(up), n)
+		c.Cond(!fi.CanReach(cs.In, open), "C14.O9", key, c.Pos(cs.In), "registration does not precede the open handler",
+			"the transferred connection is registered with the poller at "+c.Pos(cs.In)+" before the open handler runs ("+c.Pos(open)+"), and the handler is not a job of the connection: a frame that arrives right after the 101 response is parsed and its callback runs while the open handler is still running")
+	}
+	if n == 0 {
+		c.Unres("C14.O9", "AddTransferredConn sites", "none found")
 	}
 }
